@@ -289,6 +289,29 @@ fn cases(tier: Tier) -> Vec<Case> {
             }
         }
     }
+    if tier == Tier::Thorough {
+        for &mb in mbs {
+            for strat in [Strat::Default, Strat::Recreate, Strat::NonRestartable] {
+                let spawn = SpawnCfg { mailbox: mb, strat, timeout: None };
+                for start_err in [None, Some(1)] {
+                    for p in seqs(&alpha, 3) {
+                        if start_err == Some(1) && (strat == Strat::NonRestartable || !p.contains(&A::Restart)) {
+                            continue;
+                        }
+                        v.push(make_case(&[p], spawn, Attach::None, start_err, false, false));
+                    }
+                    for p in seqs(&alpha, 2) {
+                        for q in seqs(&alpha, 1) {
+                            if start_err == Some(1) && (strat == Strat::NonRestartable || !(p.contains(&A::Restart) || q.contains(&A::Restart))) {
+                                continue;
+                            }
+                            v.push(make_case(&[p.clone(), q], spawn, Attach::None, start_err, true, false));
+                        }
+                    }
+                }
+            }
+        }
+    }
     // stream-attached actors
     let salpha = [A::Send, A::Call, A::StopAddr, A::CtxStop, A::DropAddr, A::Feed, A::Close];
     let vias = [StreamVia::SpawnOnStream, StreamVia::BuildOnStream, StreamVia::BoundedOnStream(1), StreamVia::SpawnOwningOnStream];
